@@ -47,7 +47,7 @@ N0 == Num("0")
 N1 == Num("1")
 N3 == Num("3")
 ExecTemplates ==
-  { P(A), P(Str("s")), P(Node("raw", "r", <<>>)), Let("x", Bin("+", A, B)), P(Id("x")),
+  { P(A), P(Str("s")), P(Node("raw", "r", <<>>)), P(Str("a\\\\\"b")), P(Bin("+", Str("it's"), Str("\\t\\u000A\\n"))), Let("x", Bin("+", A, B)), P(Id("x")),
     E(Asg(A, Bin("*", A, Num("2")))), E(Post("++", A)), E(Un("--", B)), E(Node("casg", "+=", <<Id("s"), Str("t")>>)),
     FDecl("g", <<Id("p"), Id("q")>>, <<Ret(Bin("-", Id("p"), Id("q")))>>), P(Call(Id("g"), <<A, B>>)),
     FDecl("h", <<Id("n")>>, <<If(Lt(Id("n"), Num("2")), Ret(N1), Nil), Ret(Bin("*", Id("n"), Call(Id("h"), <<Bin("-", Id("n"), N1)>>)))>>),
